@@ -70,7 +70,7 @@ theorem lookup_setStream (s : State) (a b : Nat) (st : Stream) :
     intro x _
     by_cases hx : x.1 = b
     · simp [hx, h]
-    · simp [hx]
+    · simp
 
 @[simp] theorem setStream_isServer (s : State) (a : Nat) (st : Stream) : (s.setStream a st).isServer = s.isServer := rfl
 @[simp] theorem setStream_conn (s : State) (a : Nat) (st : Stream) : (s.setStream a st).conn = s.conn := rfl
@@ -742,7 +742,7 @@ theorem covered_rejected {s : State} {sp : Space} {f : Frame} {v : Violation}
     simp only [State.appFrame]
     split
     · rfl
-    · simp [hx]
+    · simp
   | retireCurrentConnectionId =>
     obtain ⟨rfl, seq, rfl⟩ := hv
     refine app_simple (e := .protocolViolation) rfl ⟨_, rfl, by decide⟩ ?_
@@ -831,5 +831,93 @@ theorem covered_rejected {s : State} {sp : Space} {f : Frame} {v : Violation}
       exact rejects_stream_data hl hv0 hst hr (Or.inr (Or.inr (Or.inr (Or.inr (Or.inr ⟨hk, rfl, hx⟩)))))
     · cases hf'
   | connectionIdLimit => exact hc.elim
+
+
+/-! ### a stream that is referenced for the first time starts with the configured window -/
+
+theorem mkSid_inj {sv u : Bool} {i j : Nat} (h : mkSid sv u i = mkSid sv u j) : i = j := by
+  unfold mkSid at h; omega
+
+@[simp] theorem newStream_setStream (s : State) (a : Nat) (st : Stream) (sid : Nat) :
+    (s.setStream a st).newStream sid = s.newStream sid := rfl
+
+theorem lookup_insertRange_other (s : State) (sv u : Bool) (start n sid : Nat)
+    (h : ∀ j, start ≤ j → j < start + n → mkSid sv u j ≠ sid) :
+    (s.insertRange sv u start n).lookup sid = s.lookup sid := by
+  induction n generalizing s start with
+  | zero => rfl
+  | succ k ih =>
+    simp only [State.insertRange]
+    rw [ih _ (start + 1) (fun j h1 h2 => h j (by omega) (by omega))]
+    rw [lookup_setStream]
+    have := h start (Nat.le_refl _) (by omega)
+    have hne : ¬ sid = mkSid sv u start := fun h' => this h'.symm
+    simp [hne]
+
+theorem newStream_insertRange (s : State) (sv u : Bool) (start n sid : Nat) :
+    (s.insertRange sv u start n).newStream sid = s.newStream sid := by
+  have hp := insertRange_props s sv u start n
+  simp only at hp
+  obtain ⟨a1, _, _, _, _, _, _, a8, a9, a10⟩ := hp
+  simp [State.newStream, State.window, a1, a8, a9, a10]
+
+theorem lookup_insertRange_in (s : State) (sv u : Bool) (start n i : Nat) (h1 : start ≤ i) (h2 : i < start + n) :
+    (s.insertRange sv u start n).lookup (mkSid sv u i) = some (s.newStream (mkSid sv u i)) := by
+  induction n generalizing s start with
+  | zero => omega
+  | succ k ih =>
+    simp only [State.insertRange]
+    by_cases hi : i = start
+    · subst hi
+      rw [lookup_insertRange_other _ sv u (i + 1) k (mkSid sv u i)
+        (fun j hj1 _ hj3 => by have := mkSid_inj hj3; omega)]
+      rw [lookup_setStream]; simp
+    · rw [ih _ (start + 1) (by omega) (by omega)]
+      simp
+
+theorem mkSid_of_sid (sid : Nat) : mkSid (sidServer sid) (sidUni sid) (sidIndex sid) = sid := by
+  unfold mkSid sidServer sidUni sidIndex
+  by_cases h1 : sid % 2 = 1 <;> by_cases h2 : sid / 2 % 2 = 1 <;> simp [h1, h2] <;> omega
+
+/-- a peer-initiated stream referenced for the first time (within the advertised stream limit) is created
+    with the initial limits: the frame meets `newStream sid` -/
+theorem view_fresh {s : State} {sid : Nat} (hl : Live s) (hloc : localInitiated s sid = false)
+    (hnew : sidIndex sid ≥ s.next (sidServer sid) (sidUni sid)) (hlim : sidIndex sid < advertisedStreams s sid) :
+    view s sid = some (s.newStream sid) := by
+  have hne : ¬ sidServer sid = s.isServer := by simpa [localInitiated] using hloc
+  unfold view State.openIfNecessary
+  simp only [ne_eq, hne, not_false_eq_true, if_true, hnew, hl.1, Bool.false_eq_true, if_false]
+  unfold advertisedStreams at hlim
+  have key : ∀ (s' : State), s' = s.insertRange (sidServer sid) (sidUni sid) (s.next (sidServer sid) (sidUni sid))
+      (sidIndex sid + 1 - s.next (sidServer sid) (sidUni sid)) → s'.lookup sid = some (s.newStream sid) := by
+    intro s' hs'
+    have := lookup_insertRange_in s (sidServer sid) (sidUni sid) (s.next (sidServer sid) (sidUni sid))
+      (sidIndex sid + 1 - s.next (sidServer sid) (sidUni sid)) (sidIndex sid) hnew (by omega)
+    rw [mkSid_of_sid] at this
+    rw [hs']; exact this
+  by_cases hu : sidUni sid = true
+  · simp only [hu, if_true] at hlim
+    have hno : ¬ sidIndex sid ≥ s.remoteUni.latest := by omega
+    simp only [hu, if_true, RemoteInitiated.onRemoteOpen, hno, if_false]
+    have := key _ rfl
+    rw [hu] at this
+    simpa [State.lookup, State.setNext] using this
+  · have hu' : sidUni sid = false := by cases h : sidUni sid <;> simp_all
+    simp only [hu', Bool.false_eq_true, if_false] at hlim
+    have hno : ¬ sidIndex sid ≥ s.remoteBidi.latest := by omega
+    simp only [hu', Bool.false_eq_true, if_false, RemoteInitiated.onRemoteOpen, hno]
+    have := key _ rfl
+    rw [hu'] at this
+    simpa [State.lookup, State.setNext] using this
+
+theorem newStream_remote_props (s : State) (sid : Nat) (hloc : localInitiated s sid = false)
+    (hw : s.window sid ≤ maxVarInt) :
+    (s.newStream sid).recv.state = .receiving ∧ (s.newStream sid).recv.fc.latest = s.window sid
+    ∧ RInv (s.newStream sid).recv := by
+  have hne : ¬ sidServer sid = s.isServer := by simpa [localInitiated] using hloc
+  have : (s.newStream sid).recv = Recv.init false (s.window sid) := by
+    simp [State.newStream, hne]
+  rw [this]
+  exact ⟨rfl, rfl, init_inv _ hw false⟩
 
 end Quic.Proofs.Lemmas.RecvViolations
